@@ -115,6 +115,15 @@ def defects(path):
                      b'18446744073709551616', b'zz', b'', b"'zz'", b"'" + q, q + b"'", b"'a\\qb'", b"''", b"'\\''", b"'\\\\'"):
             out.add(path[:k + 1] + repl + path[e:])
         out.add(path[:k] + path[e:])                # qualifier removed
+        # the title itself, quoted, with a backslash in front of one of its ordinary characters: a bad escape, not that title
+        t = q
+        if t[:1] == b"'" and t[-1:] == b"'" and len(t) >= 2:
+            t = t[1:-1].replace(b"\\'", b"'").replace(b'\\\\', b'\\')
+        if t and not t.isdigit():
+            for j in range(len(t)):
+                if t[j:j + 1] not in (b"'", b'\\'):
+                    esc = lambda x: x.replace(b'\\', b'\\\\').replace(b"'", b"\\'")
+                    out.add(path[:k + 1] + b"'" + esc(t[:j]) + b'\\' + esc(t[j:]) + b"'" + path[e:])
     # a qualifier on every unqualified step
     parts = path.split(b'|')
     for k, part in enumerate(parts):
